@@ -93,6 +93,7 @@ def impl(line):
     run = genutil.GenRunner.__new__(genutil.GenRunner)
     run.gen = defn.packet_generator(src, skip_header_bytes=skip, **genutil.opts_kw(o), **kw)
     run.events, run.done, run.cap = [], False, sum(map(len, chunks)) // 7 + 3
+    run.defn, run.root = defn, None
     try:
         run.drain()
     finally:
